@@ -341,8 +341,12 @@ partial def runCircuitOps (fresh : OState × CState × SpecC03.Book) (ck : Close
       let c' := { c with clock := c.clock + 1000000000000, opener := fresh.1, closer := fresh.2.1 }
       runCircuitOps fresh ck c' cfgSpec { rb with c03 := fresh.2.2, cc := 0, thr := (match fresh.1 with | .consec o => o.threshold | _ => 0), ep := { sleep := fresh.2.2.sleep, allow := fresh.2.2.half }, openBefore := realOpen } rest (acc.push (s!"open={fmtBool (isOpenEff c')}" ++ "\t-"))
     | some "view" =>
-      -- the expvar / JSON view of the circuit, its opener and its closer: a read, nothing changes
-      runCircuitOps fresh ck c cfgSpec { rb with openBefore := realOpen } rest (acc.push (s!"open={fmtBool (isOpenEff c)}" ++ "\t-"))
+      -- the expvar / JSON view of the circuit, its opener and its closer: reads.  The hystrix opener's view computes its
+      -- error percentage at its own clock's reading (here: what the circuit's clock shows), and a READ of a rolling
+      -- counter rolls its window forward to the instant presented (C13) — later events stamped before that window are
+      -- dropped, exactly as after a `ShouldOpen` at that instant
+      let c' := { c with opener := match c.opener with | .hystrix o => .hystrix (o.view c.clock) | o => o }
+      runCircuitOps fresh ck c' cfgSpec { rb with openBefore := realOpen } rest (acc.push (s!"open={fmtBool (isOpenEff c')}" ++ "\t-"))
     | some "sib" =>
       -- traffic on a sibling circuit built from the same config value: nothing changes here
       runCircuitOps fresh ck c cfgSpec { rb with openBefore := realOpen } rest (acc.push (s!"open={fmtBool (isOpenEff c)}" ++ "\t-"))
